@@ -1115,17 +1115,6 @@ func min_max(args py.Tuple, kwargs py.StringDict, name string) (py.Object, error
 			return nil, py.ExceptionNewf(py.TypeError, "'%s' object is not callable", keyFunc.Type())
 		}
 	}
-	if defaultValue != nil {
-		maxItem = defaultValue
-		if keyFunc != nil {
-			maxVal, err = py.Call(kf, py.Tuple{defaultValue}, nil)
-			if err != nil {
-				return nil, err
-			}
-		} else {
-			maxVal = defaultValue
-		}
-	}
 	iter, err := py.Iter(values)
 	if err != nil {
 		return nil, err
@@ -1172,6 +1161,10 @@ func min_max(args py.Tuple, kwargs py.StringDict, name string) (py.Object, error
 	}
 
 	if maxItem == nil {
+		// the default stands in for an empty iterable only: it is not a candidate
+		if defaultValue != nil {
+			return defaultValue, nil
+		}
 		return nil, py.ExceptionNewf(py.ValueError, "%s() arg is an empty sequence", name)
 	}
 
